@@ -143,7 +143,7 @@ def verify_one(job):
                 'error': res.error, 'error_kind': res.error_kind, 'sha': res.sha, 'time': round(res.time, 3),
                 'obligations': obs, 'inlined': res.inlined, 'sample': sample,
                 'lemmas_used': sorted(V.reg.lemma_used), 'feas_unknown': res.feas_unknown,
-                'assumes': [t for t, _e in contract.assumes], 'bounded': contract.bounded,
+                'assumes': [t for t, _e in contract.assumes] + [w for _k, w, _e in contract.assumes_at], 'bounded': contract.bounded,
                 'known': [k for k, _r in contract.known]}
     except Exception:
         return {'ident': str(key), 'props': [], 'paths': 0, 'outcomes': {}, 'error': traceback.format_exc()[-3000:],
